@@ -5,6 +5,8 @@
 package sbi
 
 import (
+	"strconv"
+
 	"github.com/gin-gonic/gin"
 
 	chf_context "github.com/free5gc/chf/internal/context"
@@ -17,13 +19,21 @@ var ghostHttpStatus int
 var ghostHttpBody bool
 var ghostHttpWrites int
 
+// the decimal value of a string, as strconv.Atoi sees it
+func specAtoiOK(s string) bool { _, err := strconv.Atoi(s); return err == nil }
+func specAtoi(s string) int    { v, _ := strconv.Atoi(s); return v }
+
 // The recharging route: any path parameter gets exactly one answer - 204 after the notification was
 // handed on, or a 400 problem for a parameter that is not <ueId>_<ratingGroup>; it never panics (C11, C12).
+// The rating group handed to the notification is the decimal value in the path, and only a value that is
+// not a 32-bit decimal is refused (C12: "naming that rating group").
 //@ func (*Server).RechargePut [C11 C12]
 //@   entry
 //@   requires s != nil && s.ServerChf != nil && c != nil && ghostHttpWrites >= 0 && ghostHttpWrites < 1<<40
 //@   ensures ghostHttpWrites == old(ghostHttpWrites)+1
 //@   ensures ghostHttpStatus == 204 || (ghostHttpStatus == 400 && ghostHttpBody)
+//@   assert "s.Processor().NotifyRecharge(": [C12] int64(int32(rg)) == rg && specAtoiOK(rgStr) && rg == int64(specAtoi(rgStr))
+//@   assert "logger.RechargingLog.Errorf(": [C12] !(specAtoiOK(rgStr) && -1<<31 <= specAtoi(rgStr) && specAtoi(rgStr) < 1<<31)
 
 // ---- routes (C13) -------------------------------------------------------------------------------
 
